@@ -506,8 +506,17 @@ def str_rational(cfg, a, b, *rest):
 
 STR_LAWS = {'str_fixed': (str_fixed, None), 'str_guarded': (str_guarded, None), 'str_rational': (str_rational, None)}
 
+def twin_false(cfg, a, b, c):
+    "vacuity guard: a law that is false for every operand must be reported (and reproduce)"
+    F = _F(cfg)
+    F(a, True)
+    return FALSE
+
+
+TWIN_LAWS = {'twin_false': (twin_false, None)}
+
 ALL = {}
-for _d in (FIXED_LAWS, GUARDED_LAWS, RATIONAL_LAWS, STR_LAWS):
+for _d in (FIXED_LAWS, GUARDED_LAWS, RATIONAL_LAWS, STR_LAWS, TWIN_LAWS):
     ALL.update(_d)
 
 
